@@ -304,10 +304,14 @@ Http::One::RequestParser::parseRequestFirstLine()
     if (!skipTrailingCrs(tok))
         return -1;
 
+    const auto sizeBeforeVersion = tok.remaining().length();
     if (!parseHttpVersionField(tok))
         return -1;
 
-    if (!http0() && !skipDelimiter(tok.skipAllTrailing(DelimiterCharacters()), "before protocol version"))
+    // An HTTP-version field, when present, is always preceded by a delimiter,
+    // even if it says HTTP/0.x. Only RFC 1945 simple requests lack both.
+    const bool foundVersionField = tok.remaining().length() != sizeBeforeVersion;
+    if (foundVersionField && !skipDelimiter(tok.skipAllTrailing(DelimiterCharacters()), "before protocol version"))
         return -1;
 
     /* parsed everything before and after the URI */
